@@ -15,6 +15,7 @@
 (* (key = path name for T, syscall name for N), the last answer persisting.       *)
 (*   F/V/C  fork / vfork / thread running task n                                 *)
 (*   W  wait for every task created so far       S  queue SIGUSR1 to itself      *)
+(*   Z  execve of the same image; the ops after Z are run by the new image        *)
 (*   K  a call the filter itself kills            X  exit_group(n)               *)
 (*   J  SIGKILL task n (C15)                      P  setsid() (C15)              *)
 (* A process task ends with an implicit exit_group(0), a thread with exit(0).    *)
@@ -40,6 +41,8 @@ Rank(q, i) == Cardinality({ j \in 1..i : q[j] \in Spawns })
 \* J only after a spawn (it needs a target)
 Terminal == {"K", "X0", "X3"}
 WF(q) == /\ \A i \in DOMAIN q : q[i] \in Terminal => i = Len(q)
+         \* the new image knows nothing of tasks created before the exec
+         /\ \A i, j \in DOMAIN q : (i < j /\ q[i] = "Z") => q[j] \notin ({"W", "J", "Z"} \cup Spawns)
          /\ \A i \in DOMAIN q : q[i] \in {"W", "J"} => Rank(q, i) > 0
 
 \* concrete ops: task t, spawn targets are base+1, base+2, ...
